@@ -53,6 +53,10 @@ def correspondence(r):
     ex2 = [dict(c, version=v) for c in exc[:: 3] for v in ([3, 11], [3, 12], [3, 13])]
     C.correspond(r, "exc_bytecode", HEADER, "exc_bytecode", ex2, lambda c: f"obs_exc {C.blist(c['tab'])}", modules=MODS,
                  describe=describe("Bytecode.exception_entries"))
+    # the "ExceptionTable:" section of a listing: one line per entry, in order, with start, inclusive end, target, depth, lasti
+    ex3 = [c for c in ex2 if c["kind"] == "wellformed"]
+    C.correspond(r, "exc_render", HEADER, "exc_render", ex3, lambda c: f"obs_exc_text {C.blist(c['tab'])}", modules=MODS,
+                 describe=describe("cross_dis.format_exception_table ('ExceptionTable:' section of listings)"))
 
 
 def validate_spec(r):
